@@ -89,6 +89,7 @@ type inst struct {
 	putAllWrite   func(ps []pairKV) // IntSet.PutAll(slice), then the caller scribbles over the slice
 	openEnum      func()            // take the enumerators now …
 	drainEnum     func() string     // … and drain them later (sorted entries); the container is not modified in between
+	stepEnum      func(n int)       // … or advance them by up to n elements now (HasMoreElements / Next), keeping what they yielded for drainEnum
 	raw           interface{}
 }
 
@@ -253,6 +254,9 @@ func wrapIntIntMap(m *hmap.IntIntMap) *inst {
 			case "SM":
 				m.SetMax(o.n)
 				return "u"
+			case "SN": // the NONE a caller configures (exported field; no setter)
+				m.NONE = int32(o.v)
+				return strconv.Itoa(m.Size())
 			case "SO":
 				if o.asc {
 					m.Sort(func(a, b int32) bool { return a < b })
@@ -372,21 +376,33 @@ func wrapIntIntMap(m *hmap.IntIntMap) *inst {
 	}
 	var enE hmap.Enumeration
 	var enK hmap.IntEnumer
-	it.openEnum = func() { *dm++; enE, enK = m.Entries(), m.Keys() }
+	var ps []pairS // what the kept enumerators have yielded so far (EN steps), completed by ED
+	var ks, ks2 []string
+	takeE := func() {
+		if e, ok := enE.NextElement().(*hmap.IntIntEntry); ok {
+			ps = append(ps, pairS{i32Tok(e.GetKey()), i32Tok(e.GetValue())})
+			ks = append(ks, i32Tok(e.GetKey()))
+		}
+	}
+	it.openEnum = func() { *dm++; enE, enK = m.Entries(), m.Keys(); ps, ks, ks2 = nil, nil, nil }
+	it.stepEnum = func(n int) {
+		if enE == nil {
+			it.openEnum()
+		}
+		for i := 0; i < n && enE.HasMoreElements(); i++ {
+			takeE()
+		}
+		for i := 0; i < n && enK.HasMoreElements(); i++ {
+			ks2 = append(ks2, i32Tok(enK.NextInt()))
+		}
+	}
 	it.drainEnum = func() string {
 		if enE == nil {
 			it.openEnum()
 		}
 		n := m.Size()
-		var ps []pairS
-		var ks, ks2 []string
-		drive(dm, n, enE.HasMoreElements, func() {
-			if e, ok := enE.NextElement().(*hmap.IntIntEntry); ok {
-				ps = append(ps, pairS{i32Tok(e.GetKey()), i32Tok(e.GetValue())})
-				ks = append(ks, i32Tok(e.GetKey()))
-			}
-		})
-		drive(dm, n, enK.HasMoreElements, func() {
+		drive(dm, max(0, n-len(ps)), enE.HasMoreElements, takeE)
+		drive(dm, max(0, n-len(ks2)), enK.HasMoreElements, func() {
 			ks2 = append(ks2, i32Tok(enK.NextInt()))
 		})
 		enE, enK = nil, nil
@@ -535,21 +551,33 @@ func newIntKeyMap(c ctor) *inst {
 	}
 	var enE hmap.Enumeration
 	var enK hmap.IntEnumer
-	it.openEnum = func() { *dm++; enE, enK = m.Entries(), m.Keys() }
+	var ps []pairS // what the kept enumerators have yielded so far (EN steps), completed by ED
+	var ks, ks2 []string
+	takeE := func() {
+		if e, ok := enE.NextElement().(*hmap.IntKeyEntry); ok {
+			ps = append(ps, pairS{i32Tok(e.GetKey()), objVal(e.GetValue())})
+			ks = append(ks, i32Tok(e.GetKey()))
+		}
+	}
+	it.openEnum = func() { *dm++; enE, enK = m.Entries(), m.Keys(); ps, ks, ks2 = nil, nil, nil }
+	it.stepEnum = func(n int) {
+		if enE == nil {
+			it.openEnum()
+		}
+		for i := 0; i < n && enE.HasMoreElements(); i++ {
+			takeE()
+		}
+		for i := 0; i < n && enK.HasMoreElements(); i++ {
+			ks2 = append(ks2, i32Tok(enK.NextInt()))
+		}
+	}
 	it.drainEnum = func() string {
 		if enE == nil {
 			it.openEnum()
 		}
 		n := m.Size()
-		var ps []pairS
-		var ks, ks2 []string
-		drive(dm, n, enE.HasMoreElements, func() {
-			if e, ok := enE.NextElement().(*hmap.IntKeyEntry); ok {
-				ps = append(ps, pairS{i32Tok(e.GetKey()), objVal(e.GetValue())})
-				ks = append(ks, i32Tok(e.GetKey()))
-			}
-		})
-		drive(dm, n, enK.HasMoreElements, func() {
+		drive(dm, max(0, n-len(ps)), enE.HasMoreElements, takeE)
+		drive(dm, max(0, n-len(ks2)), enK.HasMoreElements, func() {
 			ks2 = append(ks2, i32Tok(enK.NextInt()))
 		})
 		enE, enK = nil, nil
@@ -628,14 +656,22 @@ func newIntSet(c ctor) *inst {
 		}
 	}
 	var en *hmap.IntSetEnumer
-	it.openEnum = func() { *dm++; en = m.Values() }
+	var ps []pairS
+	it.openEnum = func() { *dm++; en = m.Values(); ps = nil }
+	it.stepEnum = func(n int) {
+		if en == nil {
+			it.openEnum()
+		}
+		for i := 0; i < n && en.HasMoreElements(); i++ {
+			ps = append(ps, pairS{i32Tok(en.NextInt()), "0"})
+		}
+	}
 	it.drainEnum = func() string {
 		if en == nil {
 			it.openEnum()
 		}
 		n := m.Size()
-		var ps []pairS
-		drive(dm, n, en.HasMoreElements, func() {
+		drive(dm, max(0, n-len(ps)), en.HasMoreElements, func() {
 			ps = append(ps, pairS{i32Tok(en.NextInt()), "0"})
 		})
 		en = nil
@@ -686,14 +722,22 @@ func newStringSet(c ctor) *inst {
 	}
 	it.raw = m
 	var en hmap.StringEnumer
-	it.openEnum = func() { *dm++; en = m.Keys() }
+	var ps []pairS
+	it.openEnum = func() { *dm++; en = m.Keys(); ps = nil }
+	it.stepEnum = func(n int) {
+		if en == nil {
+			it.openEnum()
+		}
+		for i := 0; i < n && en.HasMoreElements(); i++ {
+			ps = append(ps, pairS{strTok(en.NextString()), "0"})
+		}
+	}
 	it.drainEnum = func() string {
 		if en == nil {
 			it.openEnum()
 		}
 		n := m.Size()
-		var ps []pairS
-		drive(dm, n, en.HasMoreElements, func() {
+		drive(dm, max(0, n-len(ps)), en.HasMoreElements, func() {
 			ps = append(ps, pairS{strTok(en.NextString()), "0"})
 		})
 		en = nil
@@ -704,17 +748,17 @@ func newStringSet(c ctor) *inst {
 
 var types = []*tdesc{
 	{name: "IntIntMap", kkind: 'i', hasCtor: true,
-		ops:  []string{"P", "A", "AE", "G", "CK", "CV", "R", "C", "SZ", "IE", "IF", "SM", "SO", "TO", "TS"},
-		xops: []string{"TOF", "KAW", "EOB"}, views: []string{"Entries", "Keys", "Values", "KeyArray", "ValueArray"}, mk: newIntIntMap},
+		ops:  []string{"P", "A", "AE", "G", "CK", "CV", "R", "C", "SZ", "IE", "IF", "SM", "SN", "SO", "TO", "TS"},
+		xops: []string{"TOF", "KAW", "EOB", "EIB"}, views: []string{"Entries", "Keys", "Values", "KeyArray", "ValueArray"}, mk: newIntIntMap},
 	{name: "IntKeyMap", kkind: 'i', hasCtor: true,
 		ops:  []string{"P", "G", "CK", "CV", "R", "C", "SZ", "PA", "TS"},
-		xops: []string{"PAF", "KAW", "EOB"}, views: []string{"Entries", "Keys", "Values", "KeyArray"}, mk: newIntKeyMap},
+		xops: []string{"PAF", "KAW", "EOB", "EIB"}, views: []string{"Entries", "Keys", "Values", "KeyArray"}, mk: newIntKeyMap},
 	{name: "IntSet", kkind: 'i', isSet: true,
 		ops:  []string{"P", "CK", "R", "C", "SZ", "PA", "TS"},
-		xops: []string{"PAW", "EOB"}, views: []string{"Values"}, mk: newIntSet},
+		xops: []string{"PAW", "EOB", "EIB"}, views: []string{"Values"}, mk: newIntSet},
 	{name: "StringSet", kkind: 's', isSet: true,
 		ops:  []string{"P", "U", "CK", "HK", "R", "C", "SZ"},
-		xops: []string{"EOB"}, views: []string{"Keys"}, mk: newStringSet},
+		xops: []string{"EOB", "EIB"}, views: []string{"Keys"}, mk: newStringSet},
 }
 
 func (t *tdesc) method(code string) string {
@@ -762,8 +806,10 @@ func (t *tdesc) method(code string) string {
 		return "PutAll"
 	case "KAW":
 		return "KeyArray"
-	case "EO", "ED":
+	case "EO", "ED", "EN":
 		return "Enumerator"
+	case "SN":
+		return "NONE="
 	}
 	return code
 }
@@ -788,7 +834,7 @@ func (t *tdesc) line0(o op) string {
 		return t.line0(o2)
 	case "KAW":
 		return "KS"
-	case "EO", "TS":
+	case "EO", "TS", "EN", "SN": // SN: the configured NONE only changes how "absent" is shown; the model sees a Size query
 		return "SZ"
 	case "ED":
 		return "ES"
@@ -835,6 +881,10 @@ func (t *tdesc) replayLine0(o op) string {
 	switch o.code {
 	case "KAW", "EO", "ED", "TS":
 		return o.code
+	case "EN":
+		return fmt.Sprintf("EN %d", o.n)
+	case "SN":
+		return fmt.Sprintf("SN %d", o.v)
 	case "PAW":
 		o2 := o
 		o2.code = "PA"
@@ -888,9 +938,9 @@ func parseLine(t *tdesc, l string) (op, bool) {
 			return o, false
 		}
 		o.k = pk(w[1])
-	case "CV":
+	case "CV", "SN":
 		o.v, _ = strconv.ParseInt(w[1], 10, 64)
-	case "SM":
+	case "SM", "EN":
 		o.n, _ = strconv.Atoi(w[1])
 	case "SO":
 		o.asc = w[1] == "asc"
@@ -953,13 +1003,17 @@ func (t *tdesc) newLine(c ctor) string {
 
 // expect converts the driver's answer into the token the implementation shows for the same
 // abstract result.
-func (t *tdesc) expect(o op, model string) string {
+func (t *tdesc) expect(o op, model string, none string) string {
 	switch t.name {
 	case "IntIntMap":
 		switch o.code {
-		case "P", "A", "AE", "G", "R":
+		case "P", "A", "G", "R":
 			if model == "-" {
-				return "0" // NONE
+				return none // the instance's configured NONE (0 unless set)
+			}
+		case "AE":
+			if model == "-" {
+				return "0" // as the code has it: addIfExist answers the literal 0 for an absent key, whatever NONE is
 			}
 		}
 	case "IntSet":
@@ -1026,6 +1080,9 @@ func execOp(ms []*inst, o op) string {
 		return m.keyArrayWrite()
 	case "EO":
 		m.openEnum()
+		return m.exec(op{code: "SZ"})
+	case "EN":
+		m.stepEnum(o.n)
 		return m.exec(op{code: "SZ"})
 	case "ED":
 		return m.drainEnum()
@@ -1255,6 +1312,10 @@ func compare(h *histRes, ans []string, postWire func(modelBytes string, modelEnt
 			return []*verdict{{key: t.name + ".New:driver", summary: "driver refused the session: " + ans[i], rc: mkReplay(h, -1, "ok", ans[i], "")}}
 		}
 	}
+	nones := make([]string, len(h.cs)+4) // current NONE per instance
+	for i := range nones {
+		nones[i] = "0"
+	}
 	j := len(h.cs)
 	for i, s := range h.steps {
 		model := ans[j]
@@ -1263,7 +1324,10 @@ func compare(h *histRes, ans []string, postWire func(modelBytes string, modelEnt
 			return append(vs, &verdict{key: t.name + "." + t.method(s.o.code) + ":model", summary: "Lean Spec and CodeModel disagree (theorem C12.plain_refine would be violated): " + model,
 				rc: mkReplay(h, i, model, s.out, "")})
 		}
-		want := t.expect(s.o, model)
+		want := t.expect(s.o, model, nones[s.o.t])
+		if s.o.code == "SN" {
+			nones[s.o.t] = strconv.FormatInt(s.o.v, 10)
+		}
 		if want != s.out {
 			return append(vs, &verdict{key: t.name + "." + t.method(s.o.code) + ":result",
 				summary: fmt.Sprintf("%s.%s returned %s, the map model returns %s (op %d: %s)", t.name, t.method(s.o.code), s.out, want, i, t.replayLine(s.o)),
@@ -1499,7 +1563,7 @@ func baseOnly(avail []string) []string {
 	var out []string
 	for _, a := range avail {
 		switch a {
-		case "PAF", "TOF", "PAW", "KAW", "EOB":
+		case "PAF", "TOF", "PAW", "KAW", "EOB", "EIB":
 		default:
 			out = append(out, a)
 		}
@@ -1507,7 +1571,7 @@ func baseOnly(avail []string) []string {
 	return out
 }
 
-var weights = map[string]int{"TS": 3, "PAF": 6, "TOF": 5, "PAW": 3, "KAW": 2, "EOB": 3, "P": 30, "U": 8, "A": 10, "AE": 6, "G": 8, "CK": 7, "HK": 3, "CV": 4, "R": 14, "C": 1, "SZ": 2, "IE": 1, "IF": 2, "SM": 2, "SO": 2, "PA": 3, "TO": 2}
+var weights = map[string]int{"TS": 3, "PAF": 6, "TOF": 5, "PAW": 3, "KAW": 2, "EOB": 3, "EIB": 3, "SN": 2, "P": 30, "U": 8, "A": 10, "AE": 6, "G": 8, "CK": 7, "HK": 3, "CV": 4, "R": 14, "C": 1, "SZ": 2, "IE": 1, "IF": 2, "SM": 2, "SO": 2, "PA": 3, "TO": 2}
 
 // genOps generates a history over `nInst` live instances of the type (one key pool for all of them, so
 // that the same keys live in several containers).  Cross-object operations: PAF (PutAll from another live
@@ -1564,6 +1628,36 @@ func genOps(t *tdesc, r *vh.Rng, avail []string, n int, nInst int) []op {
 				}
 			}
 			ops = append(ops, op{code: "ED", t: a})
+			continue
+		case "EIB":
+			// an enumeration drained step by step, interleaved with READ-ONLY operations on the same container
+			// (lookups of colliding keys, Size, ToString): reads are not modifications, so the enumeration must still
+			// yield every element exactly once
+			a := o.t
+			ops = append(ops, op{code: "EO", t: a})
+			for i, m := 0, 2+r.Intn(5); i < m; i++ {
+				ops = append(ops, op{code: "EN", t: a, n: 1 + r.Intn(3)})
+				for j, q := 0, 1+r.Intn(3); j < q; j++ {
+					ops = append(ops, readOp(t, r, avail, a, pool, putK[a]))
+				}
+			}
+			ops = append(ops, op{code: "ED", t: a})
+			continue
+		case "SN":
+			o.v = int64(r.PickInt([]int{0, -1, 7, 5, 1, 100, -2147483648}))
+			if len(vals) > 0 && r.Chance(30) {
+				o.v = vals[r.Intn(len(vals))] // a NONE equal to a stored value
+			}
+			ops = append(ops, o)
+			// … then every operation that can answer "absent", on absent (and present) keys
+			for i, m := 0, 3+r.Intn(4); i < m; i++ {
+				c := []string{"G", "R", "P", "A", "AE", "G", "R"}[r.Intn(7)]
+				k := pool[r.Intn(len(pool))]
+				if r.Chance(50) {
+					k = key{i: int64(900000 + r.Intn(50))} // most probably absent
+				}
+				ops = append(ops, op{code: c, t: o.t, k: k, v: genVal(t, r)})
+			}
 			continue
 		case "P", "A", "AE", "U":
 			o.v = genVal(t, r)
@@ -1631,6 +1725,82 @@ func genCtor(t *tdesc, r *vh.Rng, capOK map[int]bool) ctor {
 		c.lf = []float32{0.5, 0.75, 1, 4}[r.Intn(4)]
 	}
 	return c
+}
+
+// readOp: one read-only operation of the type on instance a (lookups prefer keys that were put)
+func readOp(t *tdesc, r *vh.Rng, avail []string, a int, pool, put []key) op {
+	var cands []string
+	for _, c := range avail {
+		switch c {
+		case "G", "CK", "HK", "SZ", "TS", "CV", "IE", "IF":
+			cands = append(cands, c)
+			if c == "G" || c == "CK" {
+				cands = append(cands, c, c) // mostly lookups
+			}
+		}
+	}
+	c := cands[r.Intn(len(cands))]
+	k := pool[r.Intn(len(pool))]
+	if len(put) > 0 && r.Chance(70) {
+		k = put[r.Intn(len(put))]
+	}
+	return op{code: c, t: a, k: k, v: 0}
+}
+
+// genEnumReads: chains of ≥ 2 entries (keys that collide in the tables of 101, 203 and 407 buckets, or the type's
+// full-hash collision groups), then an enumeration drained ONE element at a time with a lookup of a colliding key —
+// preferably one further down the chain — between any two steps, then the rest drained (bounded by Size()+slack).
+func genEnumReads(t *tdesc, r *vh.Rng, avail []string) []op {
+	var ops []op
+	var groups [][]key
+	if t.kkind == 's' {
+		groups = append(groups, fullCollide[t.name]...)
+	} else {
+		for g, m := 0, 1+r.Intn(3); g < m; g++ {
+			var ks []key
+			base := int64(r.Intn(90))
+			for j, q := 0, 2+r.Intn(5); j < q; j++ {
+				ks = append(ks, key{i: base + int64(j)*8344921}) // 8344921 = 101 * 203 * 407
+			}
+			groups = append(groups, ks)
+		}
+	}
+	var all []key
+	for _, g := range groups {
+		for _, k := range g {
+			all = append(all, k)
+			ops = append(ops, op{code: "P", k: k, v: genVal(t, r)})
+		}
+	}
+	for i, m := 0, r.Intn(6); i < m; i++ { // a few singletons
+		k := key{i: int64(1000 + i*3), s: "s" + strconv.Itoa(i)}
+		all = append(all, k)
+		ops = append(ops, op{code: "P", k: k, v: genVal(t, r)})
+	}
+	if len(all) == 0 {
+		return ops
+	}
+	look := "CK"
+	for _, a := range avail {
+		if a == "G" {
+			look = "G"
+		}
+	}
+	for round := 0; round < 2; round++ {
+		ops = append(ops, op{code: "EO"})
+		for i := 0; i < len(all)+2; i++ {
+			ops = append(ops, op{code: "EN", n: 1})
+			g := groups[r.Intn(len(groups))]
+			if len(g) > 0 {
+				ops = append(ops, op{code: look, k: g[r.Intn(len(g))]}, op{code: "CK", k: g[len(g)-1-r.Intn((len(g)+1)/2)]})
+			}
+			if r.Chance(20) {
+				ops = append(ops, readOp(t, r, avail, 0, all, all))
+			}
+		}
+		ops = append(ops, op{code: "ED"}, op{code: "SZ"})
+	}
+	return ops
 }
 
 // smValues: the bounds every configuration history goes through (relative ones are resolved against Size())
@@ -2104,6 +2274,15 @@ func main() {
 					}
 				}
 			}
+		}
+		for i, m := 0, 12; i < m; i++ { // enumerations drained step by step with lookups of colliding keys in between
+			r := rng.Fork()
+			c := ctor{def: true}
+			if i%4 == 3 {
+				c = genCtor(t, r, po.capOK)
+			}
+			jobs = append(jobs, job{[]ctor{c}, genEnumReads(t, r, avail), 8})
+			rep.Count("enum-with-reads-history")
 		}
 		if t.name == "IntIntMap" { // configuration calls on populated maps (every bound of smValues, small and large populations)
 			for _, sm := range smValues {
